@@ -430,7 +430,7 @@ def gen_long_history(rng):
     spec = gen_spec(rng, n=n, m=m, styles=styles, plain=True)
     spec["cfg"] = [rng.choice([("CARD_COMPARISON", True), ("ONEAUDIT", True)] + ([("POLLING", True), ("POLLING", False)] if m == 1 else []))
                    for _ in range(m)]
-    spec["tests"] = [rng.choice(["bet_agrapa", "alpha_shrink_f", "alpha_shrink", "bet_agrapa", "alpha_optcomp"]) for _ in range(m)]
+    spec["tests"] = [rng.choice(["bet_agrapa", "alpha_shrink_f", "alpha_shrink", "bet_agrapa", "alpha_optcomp", "kw_last"]) for _ in range(m)]
     spec["assorter"] = [rng.choice(["plurality", "table"]) for _ in range(m)]
     spec["mvr_agree"] = rng.choice([0.5, 0.7, 0.9])
     spec["phantom"] = [rng.random() < 0.05 for _ in range(n)]
